@@ -3,6 +3,7 @@
 from ..rules import dtype_rules as D
 from ..rules import hyp_rules as H
 from ..rules import degree_rules as DG
+from ..rules import shape_rules as SH
 from ..rules.common import u1
 
 HYP = H.HYP
@@ -25,6 +26,7 @@ def run(ctx):
     ctx.do(H.rule_odd1)
     ctx.do(DG.rule_hd1)
     ctx.do(DG.rule_hd1_attr)
+    ctx.do(SH.rule_sh5, only={"TangentVector.normalized", "TangentVector.angle", "TangentVector.point_along", "TangentVector.origin_to", "Point.origin_to", "Point.unit_tangent_towards"})
     ctx.do(u1, ENTRIES, min_functions=15)
     ctx.r.assume("every numerical clause (origin -> p, distances along "
                  "geodesics, law of cosines, polygon angles) is not decided")
